@@ -40,6 +40,16 @@ func extraMode(mode string, n int, r *rand.Rand) bool {
 		for _, x := range genSweep(r, n > 1) {
 			emit(x)
 		}
+	case "e2esweep":
+		sizes := []int{13, 257, 4099}
+		if n > 1 {
+			sizes = []int{3, 13, 17, 257, 1025, 4095, 4096, 4097, 4099, 8193, 16385}
+		}
+		for _, sz := range sizes {
+			for _, x := range runE2ESweep(r, sz) {
+				emit(x)
+			}
+		}
 	case "grid12":
 		for _, x := range grid12() {
 			emit(x)
